@@ -415,7 +415,7 @@ func (c *client) connectRecover(ctx async.Context) (_ internalConn, st status.St
 
 	conns := c.conns.Load().add(conn)
 	c.conns.Store(conns)
-	verifpoint.Point("client.conns", int64(conns.len()), int64(c.options.ClientMaxConns), verifpoint.Ptr(c))
+	verifpoint.Point("client.conns", conns.verifLive(), int64(c.options.ClientMaxConns), verifpoint.Ptr(c))
 	c.connectAttempt = 0
 
 	c.connected_.Set()
